@@ -172,17 +172,33 @@ def _candidates(data):
     return out
 
 
-def _resolve(data, body, depth=0):
+class _Broken:
+    """A back-pointer that does not lead to a record of the same object: nothing a faithful copy could contain."""
+
+    def __eq__(self, other):
+        return False
+
+    def __ne__(self, other):
+        return True
+
+
+def _resolve(data, body, want_oid=None, depth=0):
     import struct
     if not isinstance(body, tuple):
         return body
     back = body[1]
-    if back == 0 or depth > 20 or back + 42 > len(data):
+    if back == 0:
         return None
+    if depth > 20 or back + 42 > len(data):
+        return _Broken()
     oid, rtid, prev, tloc, vlen, plen = struct.unpack('>8s8sQQHQ', data[back:back + 42])
+    if want_oid is not None and oid != want_oid:
+        # the one consistency check the format offers for a back-pointer (FileStorage makes it, too): it has to
+        # lead to a record of the same object; a pointer into a damaged region does not
+        return _Broken()
     if plen:
         return data[back + 42:back + 42 + plen]
-    return _resolve(data, ('back', struct.unpack('>Q', data[back + 42:back + 50])[0]), depth + 1)
+    return _resolve(data, ('back', struct.unpack('>Q', data[back + 42:back + 50])[0]), want_oid, depth + 1)
 
 
 def _judge(inp, outdata, damage_start, orig_txns):
@@ -199,7 +215,7 @@ def _judge(inp, outdata, damage_start, orig_txns):
         recs = [(r.oid, fsparse.resolve(outdata, r)) for r in t.records]
         match = None
         for pos, meta, crecs in cs:
-            if [(o, _resolve(inp, b)) for o, b in crecs] == recs and meta == t.user + t.desc + t.ext:
+            if [(o, _resolve(inp, b, o)) for o, b in crecs] == recs and meta == t.user + t.desc + t.ext:
                 match = pos
                 break
         check(match is not None, 'recovered transaction differs from the input transaction with that id (records or metadata)', t.tid)
@@ -285,7 +301,7 @@ CLASSES = [b'.', b'c', b' ', b'p', b'u', b'\x00', b'\xff', b'\x17']
 def h_recover_damaged(off: int, template: str, nbytes: int, cls: int) -> None:
     """`nbytes` bytes at offset `off` replaced by a byte of class `cls`."""
     with untraced():
-        env, s, h = T.build_file(template)
+        env, s, m_ = _source(template)
         s.close()
         full = bytes(env.fs.content(SRC))
         orig = fsparse.parse(full)
@@ -405,8 +421,9 @@ HARNESSES = [
             symbolic='offset of the damage (solver-chosen over the whole file); length and byte class are shards',
             bounds='one region of 1 or 4 bytes; 8 byte classes; templates per shard', oracle='independent parser over input and output',
             code=['fsrecover.recover', 'read_txn_header', 'scan', 'TransactionRecord iteration'],
-            quick=dict(timeout=170, shards=shards(template=['T1'], nbytes=[1], cls=[0, 1, 5, 6]) + shards(template=['T4'], nbytes=[4], cls=[0, 2, 6, 7])),
-            thorough=dict(timeout=900, shards=shards(template=['T1', 'T4', 'T5'], nbytes=[1, 4], cls=list(range(8))))),
+            quick=dict(timeout=170, shards=shards(template=['T1'], nbytes=[1], cls=[0, 1, 5, 6]) + shards(template=['T4'], nbytes=[4], cls=[0, 2, 6, 7])
+                       + shards(template=['T4', 'T12'], nbytes=[64], cls=[5])),
+            thorough=dict(timeout=900, shards=shards(template=['T1', 'T4', 'T5'], nbytes=[1, 4], cls=list(range(8))) + shards(template=['T2', 'T4', 'T5', 'T12'], nbytes=[64, 200], cls=[5, 6]))),
 ]
 
 MANIFEST = dict(
